@@ -30,6 +30,44 @@ TSAN_ENV = {"TSAN_OPTIONS": "halt_on_error=0 report_signal_unsafe=0 exitcode=0 s
 
 
 # ------------------------------------------------------------------ generator
+def thresholds_2d():
+    """2-D size thresholds read from the sources (the generator sizes its big CrossSections above all of them)."""
+    out = {}
+    for f in ("src/boolean2.h", "src/boolean2.cpp", "src/tree2d.h", "src/tree2d.cpp", "src/cross_section.cpp"):
+        try:
+            txt = open(os.path.join(vp.REPO, f)).read()
+        except OSError:
+            continue
+        for m in re.finditer(r"constexpr\s+(?:int|size_t)\s+(k\w*(?:Threshold|Min|GrainSize))\s*=\s*(\d+)\s*;", txt):
+            out[m.group(1)] = int(m.group(2))
+    return out
+
+
+def gen_big2d(rng, cid, reps, thr):
+    """Several client threads inside 2-D Booleans of big shared lazy CrossSections at once."""
+    need = max([v for k, v in thr.items() if v <= 4096] + [1024])        # edges per Boolean (both operands together)
+    n0 = need // 4 + rng.randint(10, 60)                                     # strips per operand: 4 edges each -> each operand alone is above the threshold
+    setup = ["xstrips %d 1 %d 0.5 %d" % (n0, rng.choice([200, 280]), rng.choice([1, 0])),
+             "xstrips %d 0.75 %d 0.3 %d" % (n0 + rng.randint(20, 80), rng.choice([240, 300]), rng.choice([-1, 0]))]
+    T = rng.randint(3, 6)
+    progs = []
+    for t in range(T):
+        ops = []
+        for _ in range(rng.randint(2, 3)):
+            i = rng.randrange(2)
+            r = rng.random()
+            if r < 0.85:
+                ops.append("xbig %s %d %d %d" % (rng.choice("+-^"), i, i if rng.random() < 0.7 else 1 - i, rng.randint(5, 60)))
+            elif r < 0.93:
+                ops.append("xoff %d %s" % (i, rng.choice(["0.125", "-0.0625"])))
+            else:
+                ops.append("xq %s %d" % (rng.choice(["area", "nv", "polys"]), i))
+        progs.append(ops)
+    line = "CASE %s %d 0 | %s | %s" % (cid, reps, ",".join(setup), " | ".join(",".join(p) for p in progs))
+    return {"id": cid, "line": line, "threads": T, "loose": False, "progs": progs, "setup": setup, "big2d": True,
+            "edges_per_operand": [4 * n0]}
+
+
 def gen_case(rng, cid, reps):
     loose = rng.random() < 0.2
     setup, kinds = [], []          # kinds[i] = ('m', op or None) / ('x',) / ('c',)
@@ -176,7 +214,8 @@ def parse_tsan(err):
             for fr in st:
                 if "operator delete" in fr or "_M_destroy" in fr or "::deallocate" in fr:
                     freed = True
-                if re.match(r"#\d+ manifold::", fr) and "ConcurrentSharedPtr" not in fr and top is None:
+                in_repo = (" " + vp.REPO + "/src/") in fr or (" " + vp.REPO + "/include/") in fr
+                if in_repo and not re.match(r"#\d+ (std::|__gnu_cxx::|void std::|operator )", fr) and "ConcurrentSharedPtr" not in fr and top is None:
                     top = short_fn(fr)
             fns.append(top)
         reports.append({"kind": kind, "case": cur_case, "rep": cur_rep, "fns": fns, "freed": freed, "text": block[:6000]})
@@ -233,6 +272,17 @@ def run(cx):
                       "CsgLeafNode::Compose reads meshIDCounter_ %d times (two reads can disagree under cross-thread CSG)" % info["compose_counter_reads"])
         cx.obligation("table:lock-rank-acyclic", not info["rank_cyclic"] and not info["same_kind_nesting"],
                       "nested acquisitions do not follow a strict order: edges %s same-kind %s" % (info["nesting_edges"], info["same_kind_nesting"]))
+        bad_static = [e for e in info["static_state"] if not e["ok"]]
+        guarded_ok = all(any(f == "Partition.cache" for f in c06_locks.FIELD) for e in info["static_state"] if e["category"] == "guarded")
+        cx.obligation("table:no_unsynchronised_static_state", not bad_static and guarded_ok,
+                      "function-local static / static member / namespace-scope variable that is neither thread_local, atomic, const, a mutex, "
+                      "a struct of atomics, nor guarded by a lock of the table: " +
+                      "; ".join("%s %s (%s:%d)" % (e["type"], e["name"], e["file"], e["line"]) for e in bad_static[:6]))
+        cx.cov["static_state"] = {"scanned": len(info["static_state"]),
+                                  "by_category": {c: sum(1 for e in info["static_state"] if e["category"] == c)
+                                                  for c in sorted(set(e["category"] for e in info["static_state"]))},
+                                  "non_const": [{k: e[k] for k in ("file", "line", "name", "type", "category") if k in e} | ({"reason": e["reason"]} if e.get("reason") else {})
+                                                for e in info["static_state"] if e["category"] != "const"]}
         names = set(m["name"] for m in info["methods"])
         need = ["Manifold::Manifold(Manifold&other)", "Manifold::operator=", "Manifold::LoadPNode", "Manifold::GetCsgLeafNode", "CsgLeafNode::GetImpl",
                 "CsgLeafNode::Transform", "CsgOpNode::ToLeafNode", "CsgOpNode::NumLeaves", "CrossSection::GetPaths", "Partition::GetCachedPartition",
@@ -290,13 +340,19 @@ def run(cx):
     if not ok_table:
         ncases, reps = cx.pick(60, 900), cx.pick(3, 8)      # search: the table obligation broke, spend more on finding a witness
     cases = [gen_case(rng, i, reps) for i in range(ncases)]
+    thr = thresholds_2d()
+    cx.cov["thresholds_2d_from_source"] = thr
+    cx.obligation("translate:2-D thresholds readable", thr.get("kEdgePairBvhThreshold", 0) > 0,
+                  "kEdgePairBvhThreshold not found in src/boolean2.h: the big-CrossSection programs can no longer be sized: %r" % thr)
+    nbig = cx.pick(6, 60)
+    cases += [gen_big2d(rng, "b%d" % i, reps, thr) for i in range(nbig)]
     # corpus: the witness of F8 first
     corpus = ["CASE c0 %d 0 | cube 2 2 2 0 0 0,cube 2 2 2 1 1 1,cube 2 2 2 1 0 1,bool ^ 0 1,bool + 3 2,cube 3 3 3 0 0 1,bool - 4 5,tr 4 1 0 0,bool ^ 6 7,ctx "
               "| q numtri 4,q mesh 6 | qc 8 0,q vol 8 | qc 6 0,cp 7 | poll 0 50" % max(reps, 4),
               "CASE c1 %d 0 | xsq 2 2 1 1,xci 1 12 1 0,xtr 0 1 1,ctx | xq area 2,xtol 0,xq polys 0 | xtol 2,xq area 0,xcp 2 | xex + 0 2 1,xtol 0,xtol 2 | xq nv 2,xas 0" % max(reps, 4),
               "CASE c2 %d 1 | sph 2 32 0 0 0,sph 2 32 1 1 1,sph 2 32 1 0 1,bool ^ 0 1,bool + 3 2,sph 3 32 0 0 1,bool - 4 5,tr 4 1 0 0,bool ^ 6 7,ctx,ctx "
               "| q numtri 4,q mesh 6 | qc 8 0,q vol 8 | poll 0 30,cancel 0 | qc 6 1,cp 7 | qc 8 0" % max(reps, 4)]
-    lines = corpus + [c["line"] for c in cases]
+    lines = [c["line"] for c in cases if c.get("big2d")] + corpus + [c["line"] for c in cases if not c.get("big2d")]
     bycase = {"c0": {"line": corpus[0], "threads": 4, "loose": False}, "c1": {"line": corpus[1], "threads": 4, "loose": False},
               "c2": {"line": corpus[2], "threads": 5, "loose": True}}
     for c in cases:
@@ -375,6 +431,9 @@ def run(cx):
         # non-trivial: some thread evaluates through a context (NumLeaves path) or copies/derives while another queries a shared lazy op node
         if (kinds & {"qc", "exc"}) and (kinds & {"q", "cp", "as", "ex"}):
             nontriv.add(c["line"].split("|", 1)[1])
+        # ... or at least two threads run a 2-D Boolean above the BVH threshold on shared lazy operands
+        if c.get("big2d") and sum(1 for p in c["progs"] if any(o.startswith("xbig") for o in p)) >= 2:
+            nontriv.add(c["line"].split("|", 1)[1])
     # sanitizer reports
     allrep = []
     for err in errs:
@@ -400,7 +459,7 @@ def run(cx):
                    "rule": "seeded generator of (shared pool setup, 2-8 thread programs); every case is run serially once (baseline) and `reps` times concurrently on fresh "
                            "pools under ThreadSanitizer; non-trivial = some thread evaluates through an ExecutionContext (NumLeaves/ToLeafNode with ctx) while another "
                            "queries/copies/derives from a shared lazy op node; distinct by setup+programs",
-                   "distribution": dist, "cases": len(lines), "repetitions_per_case": reps,
+                   "distribution": dist, "cases": len(lines), "big2d_cases": sum(1 for c in cases if c.get("big2d")), "repetitions_per_case": reps,
                    "tsan_reports": len(allrep), "tsan_report_keys": {k: len(v) for k, v in by_key.items()},
                    "not_modelled": ["weak memory", "TBB internals (PAR off under TSan)", "allocator", "std::mutex / shared_ptr control block internals"]})
     cx.sample({"case": corpus[0]})
